@@ -54,7 +54,7 @@ def run(prop, tier):
     res = C.Result(prop, tier)
     proof = C.proof_step(["Props/C06.v"])
     proof["trusted"] = [
-        "model Split/Duration.v written by hand from core.py; _duration_to_nb_windows, _EPSILON and the three call sites in split() are translated from /repo on every run (harness/py2coq/misc.py, group dur) and proved equal to the model for all inputs (TieDur.v); the rest of split()'s parameter block is tied by bit-exact correspondence",
+        "model Split/Duration.v written by hand from core.py; _duration_to_nb_windows, _EPSILON and the program slice of split() that derives the window counts (sign checks, window and block-size checks, the three conversions with their rounding function and epsilon, the clamp of min_length, the two admissibility checks) are translated from /repo on every run (harness/py2coq/misc.py, groups dur and split) and proved equal to Duration.nbw / split_params / split_params_reader for all float inputs (TieDur.v, TieSplit.v); the construction of the AudioReader inside split() is represented in the slice by the block-size test it performs (by hand) and tied by bit-exact correspondence",
         "Flocq 4.1 binary_float 53 1024 (Bdiv, Bplus, Bmult, mode_NE) as the semantics of Python float arithmetic; floor/ceil/int/round defined on (mantissa, exponent) in Z",
         "vm_compute reflection for the grid rows (finite domain stated in each theorem)",
         "extraction (ExtrOcamlBasic only) + OCaml driver, cross-checked by vm_compute on a sample",
@@ -68,8 +68,11 @@ def run(prop, tier):
     amax = 600 if quick else 5000
     failed, details = grid_sweep(rows, amax, tier)
     tie = misctie.tie_group("dur")
-    proof["tie_obligations"] = ["grid row b=%d ms, durations 0..%d ms" % (b, amax) for b in rows] + tie["obligations"]
-    proof["undischarged"] = ["grid row b=%d" % b for b in failed] + ([] if tie["ok"] else tie["obligations"])
+    tie_s = misctie.tie_group("split")
+    proof["tie_obligations"] = ["grid row b=%d ms, durations 0..%d ms" % (b, amax) for b in rows] + tie["obligations"] + tie_s["obligations"]
+    proof["undischarged"] = ["grid row b=%d" % b for b in failed] + ([] if tie["ok"] else tie["obligations"]) + ([] if tie_s["ok"] else tie_s["obligations"])
+    if not tie_s["ok"]:
+        tie = {"ok": False, "detail": (tie["detail"] if not tie["ok"] else "") + " " + tie_s["detail"], "obligations": tie["obligations"] + tie_s["obligations"]}
     viol = None
     cases, impl, meta = [], [], []
     # ---- _duration_to_nb_windows, ms grid (exact oracle) + random doubles (bit-exact with the model)
